@@ -12,10 +12,11 @@
 (*                    source; else look ahead one item if needed; item of  *)
 (*                    another key -> stop (item kept); else hand it out    *)
 (*   Step             (inside both) pull one item and compute its key      *)
-(*   CloseGroup(g)    aclose() of group g (asyncstdlib only; a sync group  *)
-(*                    has no close): the live group becomes stale, a stale *)
-(*                    group's close changes nothing -- in particular it    *)
-(*                    does not disturb the group that is live now          *)
+(*   CloseGroup(g)    aclose() of a *stale* group g (asyncstdlib only; a   *)
+(*                    sync group has no close): it changes nothing -- in   *)
+(*                    particular it does not disturb the group that is     *)
+(*                    live now.  (What closing the live group does is not  *)
+(*                    part of C16 and is left out.)                        *)
 (*                                                                         *)
 (* The data is fixed by Init; pulls (including end-of-source detections)   *)
 (* and key calls are counted, so laziness is part of the state.            *)
@@ -98,7 +99,8 @@ AdvanceGroup(g) ==
 
 CloseGroup(g) ==
   /\ g \in 1..ngroups /\ stops < MaxStops
-  /\ live' = (IF live = g THEN 0 ELSE live)
+  /\ live # g
+  /\ live' = live
   /\ last' = <<"close", g, "closed", 0, 0>>
   /\ UNCHANGED <<data, pos, stops, curIdx, curHas, tgt, ngroups, gkey>>
 
